@@ -71,9 +71,10 @@ func (c *CPU6502) getAddrIndirect() uint16 {
 func (c *CPU6502) getAddrIndirectJmp6502() uint16 {
 	loByte := c.Mem.Load(c.PC)
 	c.PC++
-	var addr uint16 = uint16(c.Mem.Load(c.PC))*256 + uint16(loByte)
+	hiByte := c.Mem.Load(c.PC)
+	var addr uint16 = uint16(hiByte)*256 + uint16(loByte)
 	loByte++
-	var addr2 uint16 = uint16(c.Mem.Load(c.PC))*256 + uint16(loByte)
+	var addr2 uint16 = uint16(hiByte)*256 + uint16(loByte)
 
 	return uint16(c.Mem.Load(addr2))*256 + uint16(c.Mem.Load(addr))
 }
